@@ -163,12 +163,31 @@ func callKey(c *om.Case, k int) string {
 		return "op=_start/script"
 	}
 	f := &c.Funcs[c.Calls[k].F]
-	cl := c.Calls[k].Class
-	if cl == "oob" || cl == "beyond-initial-size" {
-		return "op=memory/oob"
-	}
-	return fmt.Sprintf("op=%s/%s", f.Op, cl)
+	return keyCfg.Key(f.Op, c.Calls[k].Class)
 }
+
+// group merges the (opcode, class) pairs that share one root cause in wat2x64.
+func group(op, class string) (string, string) {
+	base := op
+	if i := strings.IndexByte(op, '.'); i >= 0 {
+		base = op[i+1:]
+	}
+	switch {
+	case (base == "min" || base == "max") && (class == "nan" || class == "+0/-0"):
+		return "f.minmax", "nan-or-signed-zeros" // minss/maxss/minsd/maxsd semantics
+	case strings.HasPrefix(base, "trunc_f") && (class == "oor" || class == "nan"):
+		return "trunc_f", "oor-or-nan" // cvttss2si/cvttsd2si without range check
+	case strings.HasPrefix(base, "trunc_f") && strings.HasSuffix(base, "_u") && class == ">=2^63":
+		return "i64.trunc_f_u", ">=2^63"
+	case base == "convert_i64_u" && class == "u>=2^63":
+		return "convert_i64_u", "u>=2^63" // cvtsi2ss/sd treat the operand as signed
+	case base == "rem_s" && class == "min/-1":
+		return "rem_s", "min/-1" // idiv overflow
+	}
+	return "", ""
+}
+
+var keyCfg = &om.Config{Group: group}
 
 func evalCase(c *om.Case) (v verdict) {
 	v.call = -1
@@ -268,7 +287,7 @@ func evalCase(c *om.Case) (v verdict) {
 
 func exclusion() (*om.Exclusion, *om.Config) {
 	ex := om.NewExclusion(prop)
-	return ex, &om.Config{Excluded: ex.Excluded, OnExcluded: ex.OnExcluded, NFuncs: core.Scale(40, 60), CallsPer: 3, Start: true}
+	return ex, &om.Config{Excluded: ex.Excluded, OnExcluded: ex.OnExcluded, NFuncs: core.Scale(40, 60), CallsPer: 3, Start: true, Group: group}
 }
 
 func TestOpMatrixNative(t *testing.T) {
